@@ -46,7 +46,8 @@ TABLES: dict[str, list] = dict(
     max_preconditioner_dim=[1, 0, -1, 2, 1024],
     precondition_frequency=[1, 0, -1, 2, 5],
     start_preconditioning_step=[-1, -2, 0, 1, 2, 4, 5, 6, 10**9],
-    inv_root_override=[0, 1, 4, -1, [], [0], [1, 2], [2, -1], [0, 0, 3]],
+    inv_root_override=[0, 1, 4, -1, [], [0], [1, 2], [2, -1], [0, 0, 3], {"seq": "tuple", "v": [1, 2]}, {"seq": "tuple", "v": [2, -1]}, {"seq": "range", "v": [2, 5]},
+                       {"seq": "range", "v": [-1, 2]}, {"seq": "custom", "v": [3, 2, 1]}, {"seq": "custom", "v": [3, -2]}],
 )
 BASES = [
     dict(lr=0.01, beta1=0.9, beta2=0.99, beta3=-1.0, epsilon=1e-8, momentum=0.0, dampening=0.0, weight_decay=0.0, max_preconditioner_dim=8,
@@ -57,6 +58,40 @@ BASES = [
          precondition_frequency=1, start_preconditioning_step=4, inv_root_override=2),
 ]
 NAMES = list(TABLES)
+
+
+class _ReadOnlySeq:
+    pass
+
+
+def materialise(v: Any) -> Any:
+    """JSON encoding of non-list Sequence[int] values: the documented type of inv_root_override is `int | Sequence[int]`."""
+    if isinstance(v, dict) and "seq" in v:
+        from collections.abc import Sequence
+
+        if v["seq"] == "tuple":
+            return tuple(v["v"])
+        if v["seq"] == "range":
+            return range(v["v"][0], v["v"][1])
+
+        class ConfigSeq(Sequence):  # a read-only sequence as configuration containers provide
+            def __init__(self, items: list) -> None:
+                self._items = list(items)
+
+            def __getitem__(self, i: Any) -> Any:
+                return self._items[i]
+
+            def __len__(self) -> int:
+                return len(self._items)
+
+            def __eq__(self, other: Any) -> bool:
+                return isinstance(other, ConfigSeq) and self._items == other._items
+
+            def __repr__(self) -> str:
+                return f"ConfigSeq({self._items})"
+
+        return ConfigSeq(v["v"])
+    return v
 
 
 def accept(k: dict) -> bool:
@@ -75,13 +110,18 @@ def accept(k: dict) -> bool:
     s = k["start_preconditioning_step"]
     ok &= (s == -1) or (s >= k["precondition_frequency"])
     o = k["inv_root_override"]
-    ok &= all(e >= 0 for e in o) if isinstance(o, list) else o >= 0
+    from collections.abc import Sequence
+
+    ok &= all(e >= 0 for e in o) if isinstance(o, Sequence) else o >= 0
     return bool(ok)
 
 
 def on_or_outside_boundary(name: str, v: Any) -> bool:
-    if isinstance(v, list):
-        return any(e <= 0 for e in v) or v == []
+    if not isinstance(v, (int, float)):
+        try:
+            return any(e <= 0 for e in v) or len(v) == 0
+        except TypeError:
+            return True
     if isinstance(v, float) and (v != v or abs(v) == inf):
         return True
     edges = {"lr": [0.0], "beta1": [0.0, 1.0], "beta2": [0.0, 1.0], "beta3": [-1.0, 0.0, 1.0], "epsilon": [0.0], "momentum": [0.0, 1.0], "dampening": [0.0, 1.0],
@@ -100,6 +140,7 @@ def oracle(case: dict) -> Outcome:
     changed = []
     for name, idx in case["set"]:
         val = idx["v"] if isinstance(idx, dict) else TABLES[name][idx]
+        val = materialise(val)
         k[name] = val
         if val != BASES[case["base"]][name] or val != val:
             changed.append(name)
@@ -139,7 +180,8 @@ def oracle(case: dict) -> Outcome:
         verb = {"lr": "lr", "epsilon": "epsilon", "momentum": "momentum", "dampening": "dampening", "weight_decay": "weight_decay",
                 "max_preconditioner_dim": "max_preconditioner_dim", "precondition_frequency": "precondition_frequency", "inv_root_override": "inv_root_override"}
         for a, b in verb.items():
-            if g[b] != k[a] and not (k[a] != k[a]):
+            same = (list(g[b]) == list(k[a])) if not isinstance(k[a], (int, float)) and not isinstance(g[b], (int, float)) else (g[b] == k[a])
+            if not same and not (k[a] != k[a]):
                 out.fail("C17.defaults.verbatim", f"{a} is not stored verbatim", f"{desc!r}: stored {g[b]!r} passed {k[a]!r}")
         if tuple(g["betas"]) != (k["beta1"], k["beta2"]):
             out.fail("C17.defaults.verbatim", "betas not stored verbatim")
